@@ -24,12 +24,21 @@
 (* in the old ones, "lossy" forgets the resolver's flags when cloning.      *)
 (***************************************************************************)
 EXTENDS Integers, Sequences, FiniteSets
-CONSTANTS Slots,        \* object identities
-          FlagChoices,  \* the flag sets a call may install
-          DefaultFlags, \* FeatureFlags.DEFAULT
-          NForms,       \* size of the formula pool
-          Variant
-VARIABLES obj           \* Slots -> object state
+\* (the @type comments are for Apalache, see Apa_ParserSession.tla; TLC ignores them)
+CONSTANTS
+  \* @type: Set(Int);
+  Slots,        \* object identities
+  \* @type: Set(Set(Str));
+  FlagChoices,  \* the flag sets a call may install
+  \* @type: Set(Str);
+  DefaultFlags, \* FeatureFlags.DEFAULT
+  \* @type: Int;
+  NForms,       \* size of the formula pool
+  \* @type: Str;
+  Variant
+VARIABLES
+  \* @type: Int -> { alive: Bool, intercept: Bool, pflags: Set(Str), rflags: Set(Str), cached: Bool, tflags: Set(Str) };
+  obj           \* Slots -> object state
 Dead == [alive |-> FALSE, intercept |-> TRUE, pflags |-> {}, rflags |-> {}, cached |-> FALSE, tflags |-> {}]
 Fresh(i, f) == [alive |-> TRUE, intercept |-> i, pflags |-> f, rflags |-> f, cached |-> FALSE, tflags |-> {}]
 
@@ -45,6 +54,7 @@ SetFlags(s, f) ==
 SetIntercept(s, b) == obj[s].alive /\ obj' = [obj EXCEPT ![s].intercept = b]
 \* any parse call resolves at least one operator table lookup when the string has an operator;
 \* the model builds the table on every parse (building early is unobservable)
+\* @type: ({ alive: Bool, intercept: Bool, pflags: Set(Str), rflags: Set(Str), cached: Bool, tflags: Set(Str) }) => Set(Str);
 TableOf(o) == IF o.cached THEN o.tflags ELSE o.rflags
 Parse(s) == obj[s].alive /\ obj' = [obj EXCEPT ![s].cached = TRUE, ![s].tflags = TableOf(obj[s])]
 \* pickle.loads(pickle.dumps(parser)) / copy.deepcopy(parser) into slot d
